@@ -10,7 +10,7 @@ def cubes(tier):
         out += [dict(nops=2, query="many", limit=l, _w=2) for l in (1, 3)]
         out += [dict(nops=2, query="single", name="sha256")]
         out += [dict(nops=1, query="single", variant=v) for v in VARIANTS]
-        out += [dict(nops=1, query="many", variant=v) for v in ("other-alg", "newer-version")]
+        out += [dict(nops=1, query=q, variant=v) for v in ("other-alg", "newer-version", "legacy") for q in ("many", "build")]
         return out
     out = [dict(nops=3, query=q, op1=o, _w=3) for q in QUERIES for o in range(5)]
     out += [dict(nops=3, query="many", limit=l, op1=o, _w=3) for l in (1, 3) for o in range(5)]
